@@ -1,6 +1,6 @@
 """Construct real sysloss components from harness inputs (symbolic or concrete) together with the
 spec-level parameter dict P."""
-from .spec import Table
+from .spec import Table, OpaqueTable, OpaqueIpr
 
 TABLE_KEY = {"VLoss": "vdrop", "Converter": "eff", "LinReg": "ig", "PSwitch": "ig", "PMux": "ig",
              "RectD": "vdrop", "RectM": "ig"}
@@ -46,7 +46,7 @@ def mk_table(ctx, name, key, n_io, n_vi, assume_axes=True, concrete_axes=False):
 
 def parse_form(form):
     """'const' | 't1xN' (1-D, N io points) | 't2xNxM' (2-D, N io points, M vi rows); prefix 'c' = concrete axes."""
-    if form == "const":
+    if form in ("const", "opaque"):
         return None
     if form.startswith("c"):
         form = form[1:]
@@ -77,8 +77,10 @@ def params(ctx, kind, name, form="const", fixed=None, loss=False, nmux=1, rs_lis
         if key in fixed:
             P[key] = fixed[key]
         elif only is not None and key not in only and key not in mandatory and not (
-                key == TABLE_KEY.get(kind) and parse_form(form)):
+                key == TABLE_KEY.get(kind) and (parse_form(form) or form == "opaque")):
             continue
+        elif key == TABLE_KEY.get(kind) and form == "opaque":
+            P[key] = OpaqueTable(name, key)
         elif key == TABLE_KEY.get(kind) and parse_form(form):
             n_io, n_vi = parse_form(form)
             P[key] = mk_table(ctx, name, key, n_io, n_vi, assume_axes, concrete_axes=form.startswith("c"))
@@ -93,12 +95,22 @@ def params(ctx, kind, name, form="const", fixed=None, loss=False, nmux=1, rs_lis
 
 def construct(kind, name, P, limits=None):
     """Call the real constructor.  Constructor exceptions propagate."""
+    from . import symx
+
     kw = {}
+    opaque = None
     for k, v in P.items():
+        if isinstance(v, OpaqueTable) and symx.active() is not None:
+            opaque = v
+            kw[k] = 0.5  # placeholder accepted by every constructor; the interpolator is replaced below
+            continue
         kw[k] = v.as_dict(k) if isinstance(v, Table) else (list(v) if isinstance(v, list) else v)
     if limits is not None:
         kw["limits"] = limits
-    return cls_of(kind)(name, **kw)
+    comp = cls_of(kind)(name, **kw)
+    if opaque is not None:
+        comp._ipr = OpaqueIpr(opaque)
+    return comp
 
 
 def build(ctx, kind, name, form="const", limits=None, **kw):
